@@ -1,7 +1,7 @@
 (* C03 — the Prop-level reading of the boolean specification [spec_b] (model/C03_run.v) and the proof
    that spec_b holds exactly when it does. *)
 From Coq Require Import Arith NArith List Ascii String Bool Lia.
-From AV Require Import lib.Str model.C03_model model.C03_run.
+From AV Require Import lib.Str model.C03_model model.C03_run proofs.C03_err_proofs.
 Import ListNotations.
 Local Open Scope nat_scope.
 
@@ -226,6 +226,103 @@ Proof.
     + split; [|reflexivity]. intros _ G'. apply loc_guard_iff in G'. congruence.
 Qed.
 
+(* ------------------------------------------------------------------ the error-class clause (class_ok, ops_err_ok) *)
+Lemma is404b_iff r : is404b r = true <-> exists d b c, r = Resp 404 d b c.
+Proof.
+  destruct r as [st d b c|]; cbn; [|split; [discriminate|intros (? & ? & ? & X); discriminate]].
+  rewrite N.eqb_eq. split; [intros ->; eauto|intros (? & ? & ? & [= -> _ _ _]); reflexivity].
+Qed.
+Lemma retryableb_iff r :
+  retryableb r = true <-> r = ConnErr \/ exists st d b c, r = Resp st d b c /\ (st = 408 \/ st = 429 \/ 500 <= st)%N.
+Proof.
+  destruct r as [st d b c|]; cbn; [|split; auto].
+  unfold retry_status. rewrite !orb_true_iff, !N.eqb_eq, N.leb_le. split.
+  - intros X. right. exists st, d, b, c. split; [reflexivity|tauto].
+  - intros [X|(st' & ? & ? & ? & [= <- _ _ _] & X)]; [discriminate|tauto].
+Qed.
+
+(* the error e of a failed read against the (service, answer) list al of the requests the operation made, in
+   request order; order = the probe order of the block *)
+Record ClassSpec (order : list nat) (al : list (nat * response)) (e : err) : Prop := {
+  (* BlockNotFound: every service answered 404 to one of this operation's requests *)
+  cl_notfound : e = ENotFound -> forall s, In s order -> exists r, In (s, r) al /\ is404b r = true;
+  (* temporary: some service's last answer was retryable *)
+  cl_temp : e = ETemp -> exists s r, In s order /\ last_of al s = Some r /\ retryableb r = true;
+  (* permanent: no service's last answer was retryable *)
+  cl_perm : e = EPerm -> forall s r, In s order -> last_of al s = Some r -> retryableb r = false;
+  (* every service's last answer was a 404: BlockNotFound *)
+  cl_all404 : order <> [] -> (forall s, In s order -> exists r, last_of al s = Some r /\ is404b r = true) -> e = ENotFound
+}.
+
+Lemma err_eqb_eq' a b : err_eqb a b = true <-> a = b.
+Proof. destruct a, b; cbn; split; intros X; try reflexivity; try discriminate. Qed.
+
+Lemma class_okb_iff order al e : class_okb order al e = true <-> ClassSpec order al e.
+Proof.
+  unfold class_okb. rewrite andb_true_iff, orb_true_iff, negb_true_iff, err_eqb_eq'. split.
+  - intros [A B]. constructor.
+    + intros -> s Hs. rewrite forallb_forall in A. apply has404_in. apply A. exact Hs.
+    + intros ->. apply existsb_exists in A. destruct A as (s & Hs & A). unfold last_retry in A.
+      destruct (last_of al s) as [r|] eqn:E; [|discriminate]. exists s, r. auto.
+    + intros -> s r Hs El. apply negb_true_iff in A. destruct (retryableb r) eqn:Er; [|reflexivity].
+      assert (X : existsb (last_retry al) order = true) by (apply existsb_exists; exists s; split; [exact Hs|unfold last_retry; rewrite El; exact Er]).
+      congruence.
+    + intros Hne Hall. destruct B as [B|B]; [|exact B]. exfalso.
+      assert (X : all_last_404 order al = true).
+      { apply all404_spec. split; [exact Hne|]. intros s Hs. destruct (Hall s Hs) as (r & El & Er). unfold last404. rewrite El. exact Er. }
+      congruence.
+  - intros [Hn Ht Hp Ha]. split.
+    + destruct e; try reflexivity.
+      * apply forallb_forall. intros s Hs. apply has404_in. apply Hn; [reflexivity|exact Hs].
+      * destruct (Ht eq_refl) as (s & r & Hs & El & Er). apply existsb_exists. exists s. split; [exact Hs|]. unfold last_retry. rewrite El. exact Er.
+      * apply negb_true_iff. destruct (existsb (last_retry al) order) eqn:E; [|reflexivity].
+        apply existsb_exists in E. destruct E as (s & Hs & E). unfold last_retry in E. destruct (last_of al s) as [r|] eqn:El; [|discriminate].
+        rewrite (Hp eq_refl s r Hs El) in E. discriminate.
+    + destruct (all_last_404 order al) eqn:E; [right|left; reflexivity]. apply all404_spec in E. destruct E as [Hne E].
+      apply Ha; [exact Hne|]. intros s Hs. specialize (E s Hs). unfold last404 in E. destruct (last_of al s) as [r|]; [|discriminate]. eauto.
+Qed.
+
+Lemma class_ok_iff order al e : class_ok order al e = true <-> (NoDup order -> ClassSpec order al e).
+Proof.
+  unfold class_ok. destruct (nodupb order) eqn:E; cbn [negb orb].
+  - rewrite class_okb_iff. apply nodupb_NoDup in E. split; [intros X _; exact X|intros X; apply X; exact E].
+  - split; [|reflexivity]. intros _ Hn. apply nodupb_NoDup in Hn. congruence.
+Qed.
+
+(* per operation, seg = the requests the operation caused *)
+Definition ErrSpec (i : cin) (o : op) (r : ores) (seg : list (nat * nat * nat)) : Prop :=
+  match o, r with
+  | OGet b _, RGet gerr _ _ _ _ _ => NoDup (b_order (blk_of i b)) -> ClassSpec (b_order (blk_of i b)) (answers i seg) gerr
+  | OReadAt b _ _, RRead _ e => NoDup (b_order (blk_of i b)) -> ClassSpec (b_order (blk_of i b)) (answers i seg) e
+  | OGroup _ b _ _, RGroup l =>
+      NoDup (b_order (blk_of i b)) -> forall r, In r l -> ClassSpec (b_order (blk_of i b)) (answers i seg) (snd r)
+  | _, _ => True
+  end.
+
+(* ob_nreq cuts the request log into one segment per operation *)
+Fixpoint OpsErrSpec (i : cin) (ops : list op) (rs : list ores) (ns : list nat) (log : list (nat * nat * nat)) : Prop :=
+  match ops, rs, ns with
+  | [], [], [] => True
+  | o :: ops', r :: rs', n :: ns' => ErrSpec i o r (firstn n log) /\ OpsErrSpec i ops' rs' ns' (skipn n log)
+  | _, _, _ => False
+  end.
+
+Lemma err_ok_reflects i o r seg : err_ok i o r seg = true <-> ErrSpec i o r seg.
+Proof.
+  destruct o as [b m|b n off|k b n off|segs off], r as [gerr size srv bytes rerr cerr|bytes e|l|bytes e];
+    cbn [err_ok ErrSpec]; try tauto; try apply class_ok_iff.
+  rewrite forallb_forall. split.
+  - intros X Hn r Hr. apply class_ok_iff; [apply X; exact Hr|exact Hn].
+  - intros X r Hr. apply class_ok_iff. intros Hn. apply X; assumption.
+Qed.
+
+Lemma ops_err_ok_reflects i ops : forall rs ns log, ops_err_ok i ops rs ns log = true <-> OpsErrSpec i ops rs ns log.
+Proof.
+  induction ops as [|o ops IH]; intros [|r rs] [|n ns] log; cbn [ops_err_ok OpsErrSpec]; try (split; [discriminate|intros []]).
+  - split; [constructor|reflexivity].
+  - rewrite andb_true_iff, err_ok_reflects, IH. reflexivity.
+Qed.
+
 (* the whole judgement: every operation's result satisfies OpSpec and LocSpec, and (not_found_classes) if the
    first operation is a Get/ReadAt of a block for which every service answers 404, its error is BlockNotFound *)
 Definition NotFoundSpec (i : cin) (rs : list ores) : Prop :=
@@ -241,9 +338,21 @@ Proof. destruct a, b; cbn; split; intros X; try reflexivity; try discriminate. Q
 Theorem spec_b_reflects c :
   spec_b c = true <->
   (Forall2 (OpSpec (c_in c)) (i_ops (c_in c)) (ob_res (c_obs c)) /\ NotFoundSpec (c_in c) (ob_res (c_obs c)) /\
-   Forall2 (LocSpec (c_in c)) (i_ops (c_in c)) (ob_res (c_obs c))).
+   Forall2 (LocSpec (c_in c)) (i_ops (c_in c)) (ob_res (c_obs c)) /\
+   (ob_sync (c_obs c) = true ->
+    OpsErrSpec (c_in c) (i_ops (c_in c)) (ob_res (c_obs c)) (ob_nreq (c_obs c)) (ob_log (c_obs c)))).
 Proof.
-  unfold spec_b. rewrite !andb_true_iff.
+  unfold spec_b. rewrite andb_true_iff.
+  assert (Herr : (negb (ob_sync (c_obs c)) ||
+                  ops_err_ok (c_in c) (i_ops (c_in c)) (ob_res (c_obs c)) (ob_nreq (c_obs c)) (ob_log (c_obs c))) = true <->
+                 (ob_sync (c_obs c) = true ->
+                  OpsErrSpec (c_in c) (i_ops (c_in c)) (ob_res (c_obs c)) (ob_nreq (c_obs c)) (ob_log (c_obs c)))).
+  { destruct (ob_sync (c_obs c)); cbn [negb orb].
+    - rewrite ops_err_ok_reflects. split; [intros X _; exact X|intros X; apply X; reflexivity].
+    - split; [intros _ X; discriminate|reflexivity]. }
+  rewrite Herr. clear Herr.
+  match goal with |- (?a = true /\ ?R) <-> (?P /\ ?Q /\ ?L /\ ?R) => enough (a = true <-> (P /\ Q /\ L)) by tauto end.
+  rewrite !andb_true_iff.
   assert (Hloc : forall ops rs, ops_loc_ok (c_in c) ops rs = true <-> Forall2 (LocSpec (c_in c)) ops rs).
   { induction ops as [|o ops IH]; intros [|r rs]; cbn [ops_loc_ok]; try (split; [discriminate|intros X; inversion X]).
     - split; [constructor|reflexivity].
